@@ -277,11 +277,17 @@ func (loc *Location) RuleEnabled(ctx *Context, id string) (bool, error) {
 }
 
 func (loc *Location) SetProp(ctx *Context, id string, prop string, val interface{}) error {
+	if err := loc.CheckWrite(ctx); err != nil {
+		return err
+	}
 	_, err := SetProp(ctx, loc.state, id, prop, val)
 	return err
 }
 
 func (loc *Location) RemProp(ctx *Context, id string, prop string) error {
+	if err := loc.CheckWrite(ctx); err != nil {
+		return err
+	}
 	_, err := RemProp(ctx, loc.state, id, prop)
 	return err
 }
